@@ -23,6 +23,11 @@ def has_sym(a):
         return any(isinstance(x, (SymReal, SymBool)) for x in a.flat)
     if isinstance(a, (list, tuple)):
         return any(has_sym(x) for x in a)
+    if hasattr(a, 'to_numpy') and hasattr(a, 'dtypes' if hasattr(a, 'columns') else 'dtype'):
+        try:
+            return has_sym(a.to_numpy())
+        except Exception:
+            return False
     return False
 
 
@@ -418,7 +423,7 @@ class NPShim:
     # ---- reductions
     def std(self, a, *args, **k):
         a_ = np.asarray(a)
-        if a_.dtype != object:
+        if a_.dtype != object or not has_sym(a_):
             return np.std(a, *args, **k)
         ddof = k.get('ddof', 0)
         v = self.var(a_, ddof=ddof)
@@ -434,6 +439,18 @@ class NPShim:
         n = len(flat)
         m = sum(flat[1:], flat[0]) / n
         return sum(((x - m) * (x - m) for x in flat[1:]), (flat[0] - m) * (flat[0] - m)) / (n - ddof)
+
+    def mean(self, a, *args, **k):
+        if has_sym(a) and not args and not k:
+            flat = list(np.asarray(a, dtype=object).flat)
+            return sum(flat[1:], flat[0]) / len(flat)
+        return np.mean(a, *args, **k)
+
+    def sum(self, a, *args, **k):
+        if has_sym(a) and not args and not k:
+            flat = list(np.asarray(a, dtype=object).flat)
+            return sum(flat[1:], flat[0]) if flat else 0.0
+        return np.sum(a, *args, **k)
 
     def sqrt(self, a):
         if isinstance(a, SymReal):
